@@ -188,6 +188,13 @@ class AnyArray(np.lib.mixins.NDArrayOperatorsMixin):
         # https://github.com/cupy/cupy/issues/2616 is resolved
         self._writeable = False
 
+    def __setstate__(self, state):
+        # numpy does not pickle/deepcopy ndarray.flags.writeable: restore the
+        # write protection of a locked array after unpickling or deepcopy
+        self.__dict__.update(state)
+        if not self._writeable and isinstance(self._val, np.ndarray):
+            self._val.flags.writeable = False
+
     @property
     def readonly(self):
         """Indicates whether the AnyArray instance is read-only.
